@@ -3,6 +3,7 @@
 mod c01;
 mod c02;
 mod c04;
+mod c08tcp;
 mod c09;
 mod c12;
 mod c15;
@@ -69,6 +70,7 @@ fn main() {
             let mut rep = Report::new("C08", tier, "model_checking", "sim");
             rep.rule = "stateless deviation-bounded enumeration: hold/release placed at every step (<=2 cycles, from the Sim handle by name or regex, or from host code), manual delivery of any held message or deliver_all as deviations, numbered UDP datagrams A<->B and A->C every step with a fixed 2-tick latency; receive logs (id, source, step) compared with a step-granular reference, Sim::links compared with the reference in-flight set".into();
             run_dfs(&mut rep, "hold-release-3hosts", tier.pick(2, 3), wall, move |ch| flow::c08_scenario(ch, thorough));
+            run_dfs(&mut rep, "tcp-segments-and-resets-under-hold", 0, wall, move |ch| c08tcp::scenario(ch, thorough));
             rep.finish();
         }
         "C03" => {
@@ -246,7 +248,13 @@ fn replay(path: &str) {
                 c02::scenario(&mut ch, thorough)
             }
         }
-        "C08" => flow::c08_scenario(&mut ch, thorough),
+        "C08" => {
+            if v["scenario"].as_str().map(|s| s.starts_with("c08-tcp")).unwrap_or(false) {
+                c08tcp::scenario(&mut ch, thorough)
+            } else {
+                flow::c08_scenario(&mut ch, thorough)
+            }
+        }
         "C03" => flow::c03_scenario(&mut ch, thorough),
         "C14" => flow::c14_scenario(&mut ch, thorough),
         "C12" => {
